@@ -8,8 +8,8 @@ open Scenic.Expr
 def exprTables : Tables :=
   { simp := [⟨.add, false, 0⟩, ⟨.add, true, 0⟩, ⟨.sub, false, 0⟩, ⟨.mul, false, 1⟩, ⟨.mul, true, 1⟩, ⟨.truediv, false, 1⟩, ⟨.pow, false, 1⟩],
     vecOps := [(.add, false, true), (.add, true, true), (.sub, false, true), (.sub, true, false), (.mul, false, false), (.truediv, false, false)],
-    pythonDispatch := false,
-    vecHandlerAcceptsSeq := false }
+    pythonDispatch := true,
+    vecHandlerAcceptsSeq := true }
 
 /-- `X * globalOrientation -> X` style simplifications on Orientation-typed values: (operator, reflected) -/
 def orientationIdentityOps : List (BinOp × Bool) := [(.mul, false), (.mul, true)]
@@ -23,8 +23,8 @@ def vectorPlainDunders : List String := ["__rmul__"]
 /-- named Vector methods with their lifting decorator -/
 def vectorNamedOps : List (String × String) := [("applyRotation", "vectorOperator"), ("sphericalCoordinates", "vectorOperator"), ("rotatedBy", "zeroPreservingVectorOperator"), ("offsetRotated", "vectorOperator"), ("offsetLocally", "vectorOperator"), ("offsetRadially", "vectorOperator"), ("distanceTo", "scalarOperator"), ("angleTo", "scalarOperator"), ("azimuthTo", "scalarOperator"), ("altitudeTo", "scalarOperator"), ("angleWith", "scalarOperator"), ("norm", "scalarOperator"), ("dot", "scalarOperator"), ("cross", "vectorOperator"), ("normalized", "vectorOperator")]
 /-- the vector operators wrap tuple/list operands with toDistribution (the model does not cover such operands) -/
-def vectorOperatorsWrapOperands : Bool := false
+def vectorOperatorsWrapOperands : Bool := true
 /-- functions of geometry.py declared `monotonicDistributionFunction` -/
-def monotoneDeclared : List String := ["hypot", "max", "min"]
+def monotoneDeclared : List String := ["max", "min"]
 
 end Scenic.Gen
